@@ -4,8 +4,8 @@
 # constant) every frame gets index 1.
 import sys, warnings, copy
 warnings.filterwarnings('ignore')
-sys.path.insert(0, sys.argv[1] + '/src'); sys.path.insert(0, '/verif/harness')
-import stub_modules as stubmods; stubmods.install()
+sys.path.insert(0, sys.argv[1] + '/src'); sys.path.insert(0, '/root/scratch/probe')
+import stubmods; stubmods.install()
 import numpy as np, pydicom, highdicom as hd
 from pydicom.sr.codedict import codes
 
